@@ -64,6 +64,7 @@ metrics).
 import Rs1090.Proofs.CprStateInv
 import Rs1090.Proofs.CprStateKin
 import Rs1090.Proofs.CprStateMetres
+import Rs1090.Gen.HiddenState
 namespace Rs1090.Props.C06
 open Rs1090 Rs1090.Model.Cpr Rs1090.Model.CprState Rs1090.Spec.Cpr Rs1090.Proofs.Cpr Rs1090.Proofs.CprState
 
@@ -1450,5 +1451,17 @@ theorem moving_flight_within_25m :
       9 _ ⟨46429695 / 966656, 2366205 / 212992⟩ rfl (by decide +kernel)).1
   · exact (sound_within_25m dist48 (some (·.low)) _ movingHistory henc (hkin _).2
       8 _ ⟨185795235 / 3866624, 9458385 / 851968⟩ rfl (by decide +kernel)).2.1 rfl
+
+/-! ### hidden state (the code side of "is a function of its input") -/
+
+/-- **No hidden state besides the reviewed one** in the files this property is anchored in.  The state of trajectory decoding is EXPLICIT: the per-aircraft cache and the reference are arguments of `decode_position` (modelled as such); cpr.rs itself holds nothing between calls — which is what the non-interference theorem needs of the code.
+    The translator lists on every run every construct through which a Rust function can carry state from one
+    call to the next without it showing in its signature (`static`, `thread_local!`, `lazy_static!`,
+    `OnceCell`/`OnceLock`/`Lazy`, `Cell`/`RefCell`/`UnsafeCell`, `Mutex`/`RwLock`, atomics, `unsafe`; whole
+    files, gen/extractors/hidden_state.py); a memo, cache or counter added there breaks this obligation by
+    name, whatever inputs the harness happens to generate. -/
+theorem hidden_state_reviewed :
+    Gen.HiddenState.sitesIn ["decode/cpr.rs"] =
+      [] := by decide
 
 end Rs1090.Props.C06
